@@ -339,7 +339,9 @@ def requested(fresh_sd, call, rid):
     for d in _tl(call.get("depends_on")):
         r = rm.get_revision(d)
         deps.append(d if d in r.branch_labels else r.revision)
-    return {"id": rid, "down": down, "deps": deps, "labels": _tl(call.get("branch_label"))}
+    # the symbolic name `heads` asks for all heads, in no particular order
+    unordered = any(str(x).split("@")[-1] == "heads" for x in _tl(head))
+    return {"id": rid, "down": down, "deps": deps, "labels": _tl(call.get("branch_label")), "down_unordered": unordered}
 
 
 def date_fields(script_path_or_none, src):
